@@ -54,6 +54,16 @@ type UDPConn struct {
 	ReadAts  []time.Duration
 	// LastSent is the ledger record of the most recent WriteTo on this socket.
 	LastSent *DgramRec
+	// DlLog lists the read deadlines set on the socket, in order.
+	DlLog []DeadlineRec
+}
+
+// DeadlineRec is one SetReadDeadline call: when it was made and the deadline it
+// set (virtual time since the epoch; -1 = none).
+type DeadlineRec struct {
+	At  time.Duration
+	Seq int
+	T   time.Duration
 }
 
 var _ net.PacketConn = (*UDPConn)(nil)
@@ -154,6 +164,11 @@ func (c *UDPConn) ReadFromUDP(p []byte) (int, *net.UDPAddr, error) {
 		if c.closed {
 			return 0, nil, opErr("read", "udp", c.local, net.ErrClosed)
 		}
+		// Go checks the deadline before it attempts the read (poll.prepareRead): an
+		// expired deadline wins over queued data.
+		if c.rdl.expired() {
+			return 0, nil, opErr("read", "udp", c.local, errTimeout)
+		}
 		if len(c.q) > 0 {
 			if !c.Foreign && c.w.UDPReadErr > 0 && simrt.S.Fault.Permille(c.w.UDPReadErr) {
 				simrt.Fault("udp_read_transient_error")
@@ -162,7 +177,6 @@ func (c *UDPConn) ReadFromUDP(p []byte) (int, *net.UDPAddr, error) {
 			d := c.q[0]
 			c.q = c.q[1:]
 			n := copy(p, d.data)
-			raceRead()
 			c.NRecv++
 			c.ReadLog = append(c.ReadLog, d.rec)
 			c.w.EvSeq++
@@ -171,9 +185,6 @@ func (c *UDPConn) ReadFromUDP(p []byte) (int, *net.UDPAddr, error) {
 			simrt.Log("udp:read", int64(c.ID), int64(n))
 			from := *d.from
 			return n, &from, nil
-		}
-		if c.rdl.expired() {
-			return 0, nil, opErr("read", "udp", c.local, errTimeout)
 		}
 		c.readers = append(c.readers, simrt.Cur())
 		simrt.Block("udp read", c)
@@ -220,11 +231,11 @@ func (c *UDPConn) WriteToUDP(p []byte, ua *net.UDPAddr) (int, error) {
 		c.WriteErrs++
 		return 0, opErr("write", "udp", ua, syscall.ENETUNREACH)
 	}
-	raceWrite()
 	w.nextDg++
 	rec := &DgramRec{ID: w.nextDg, At: simrt.Elapsed(), Seq: simrt.Steps(), From: c.sourceFor(ua.IP), To: &net.UDPAddr{IP: ua.IP, Port: ua.Port, Zone: ua.Zone},
 		FromSock: c, Payload: append([]byte(nil), p...)}
 	w.Dgrams = append(w.Dgrams, rec)
+	simrt.Account(len(p) + 200)
 	c.LastSent = rec
 	c.NSent++
 	simrt.Log("udp:send", int64(c.ID), int64(len(p)))
@@ -300,9 +311,16 @@ func (c *UDPConn) SetDeadline(t time.Time) error { return c.SetReadDeadline(t) }
 
 //go:norace
 func (c *UDPConn) SetReadDeadline(t time.Time) error {
+	simrt.Yield()
 	if c.closed {
 		return opErr("set", "udp", c.local, net.ErrClosed)
 	}
+	c.w.EvSeq++
+	rec := DeadlineRec{At: simrt.Elapsed(), Seq: c.w.EvSeq, T: -1}
+	if !t.IsZero() {
+		rec.T = t.Sub(simrt.Epoch)
+	}
+	c.DlLog = append(c.DlLog, rec)
 	c.rdl.set(t, func() { wakeAll(&c.readers) })
 	if c.rdl.expired() {
 		wakeAll(&c.readers)
